@@ -411,7 +411,14 @@ def nthroot_fixed(y, n, prec, exp1):
     extra = 10
     extra1 = n
     prevp = start
-    for p in giant_steps(start, prec+extra):
+    # The error after a Newton step is about ((n-1)/2)*e**2 (plus rounding):
+    # the precision may be doubled only up to a margin that grows with log2(n),
+    # also in the first step from the 50-bit estimate
+    margin = bitcount(n) + 2
+    steps = [prec+extra]
+    while steps[-1] > 2*(start-margin):
+        steps.append(steps[-1]//2 + margin)
+    for p in steps[::-1]:
         pm, pe = int_pow_fixed(r, n-1, prevp)
         r2 = rshift(pm, (n-1)*prevp - p - pe - extra1)
         B = lshift(y, 2*p-prec+extra1)//r2
